@@ -20,6 +20,7 @@ import (
 	"compress/gzip"
 	"io"
 	"net/http"
+	"strconv"
 	"strings"
 
 	"github.com/tmpim/casket"
@@ -53,7 +54,7 @@ type Config struct {
 
 // ServeHTTP serves a gzipped response if the client supports it.
 func (g Gzip) ServeHTTP(w http.ResponseWriter, r *http.Request) (int, error) {
-	if !strings.Contains(r.Header.Get("Accept-Encoding"), "gzip") {
+	if !acceptsGzip(r.Header.Get("Accept-Encoding")) {
 		return g.Next.ServeHTTP(w, r)
 	}
 outer:
@@ -112,6 +113,30 @@ outer:
 
 	// no matching filter
 	return g.Next.ServeHTTP(w, r)
+}
+
+// acceptsGzip reports whether an Accept-Encoding header value lists
+// gzip (or its alias x-gzip) with a quality value other than 0.
+func acceptsGzip(header string) bool {
+	for _, element := range strings.Split(header, ",") {
+		fields := strings.Split(element, ";")
+		name := strings.ToLower(strings.TrimSpace(fields[0]))
+		if name != "gzip" && name != "x-gzip" {
+			continue
+		}
+		refused := false
+		for _, param := range fields[1:] {
+			kv := strings.SplitN(param, "=", 2)
+			if len(kv) == 2 && strings.ToLower(strings.TrimSpace(kv[0])) == "q" {
+				q, err := strconv.ParseFloat(strings.TrimSpace(kv[1]), 64)
+				refused = err == nil && q == 0
+			}
+		}
+		if !refused {
+			return true
+		}
+	}
+	return false
 }
 
 // gzipResponseWriter wraps the underlying Write method
